@@ -332,3 +332,92 @@ def h_port_twin(o1: int, p1: int, l1: bool, o2: int, p2: int, l2: bool, gp: bool
     post: _
     """
     return body(o1, p1, l1, o2, p2, l2, True, gp)
+
+
+# ---- a text-interface member whose external solver process dies: the member must FAIL (raise), never spin ------------------------
+def death_body(d, bp, script, twin):
+    dd = None
+    for j in range(0, 12):
+        if d == j:
+            dd = j
+            break
+    sc = None
+    for j in range(3):
+        if script == j:
+            sc = j
+            break
+    if dd is None or sc is None:
+        return True
+    broken = True if bp else False
+    with NoTracing():
+        from unittest import mock
+        import pysmt.smtlib.solver as S
+        from pysmt.logics import QF_BV
+        from pysmt import typing as T
+        from engine import fakesmt
+        env = new_env(dict_model=False)
+        m = env.formula_manager
+        a, b = m.Symbol("a", T.BOOL), m.Symbol("b", T.BOOL)
+        x = m.Symbol("x", env.type_manager.BVType(2))
+        ok = True
+        why = ""
+        fakesmt.FakeProcess.DIE_AFTER = dd
+        fakesmt.FakeProcess.BROKEN_PIPE = broken
+        died = False
+        try:
+            with mock.patch.object(S, "Popen", fakesmt.FakeProcess), mock.patch.object(S, "TextIOWrapper", fakesmt.identity_wrapper), \
+                    mock.patch.object(S.time, "sleep", lambda *_: None):
+                try:
+                    solver = S.SmtLibSolver(["fake-solver"], env, QF_BV, LOGICS=[QF_BV])
+                    proc = fakesmt.FakeProcess.instances[-1]
+                    if sc == 0:
+                        solver.add_assertion(m.Or(a, b))
+                        r = solver.solve()
+                        if r:
+                            solver.get_model()
+                    elif sc == 1:
+                        solver.add_assertion(a)
+                        solver.push()
+                        solver.add_assertion(m.BVULT(x, m.BV(2, 2)))
+                        r = solver.solve()
+                        solver.get_value(x)
+                        solver.pop()
+                        r = solver.solve()
+                    else:
+                        r = solver.is_sat(m.And(a, m.Not(b)))
+                        solver.add_assertion(b)
+                        r = solver.solve()
+                    died = proc.dead
+                    if died:
+                        ok, why = False, "every call returned normally although the solver process died after %d commands" % dd
+                except fakesmt.Spin as e:
+                    ok, why = False, str(e)
+                except fakesmt.Desync as e:
+                    ok, why = False, "desynchronised before the process died: %s" % e
+                except Exception:
+                    proc = fakesmt.FakeProcess.instances[-1]
+                    if not proc.dead:
+                        ok, why = False, "API call raised although the solver process was alive"
+                    died = True
+        finally:
+            fakesmt.FakeProcess.DIE_AFTER = None
+            fakesmt.FakeProcess.BROKEN_PIPE = False
+        PARAMS["_why"] = why
+        reached = died
+    if twin:
+        return not reached
+    return ok
+
+
+def h_death(d: int, bp: bool, script: int) -> bool:
+    """
+    post: _
+    """
+    return death_body(d, bp, script, False)
+
+
+def h_death_twin(d: int, bp: bool, script: int) -> bool:
+    """
+    post: _
+    """
+    return death_body(d, bp, script, True)
